@@ -201,6 +201,15 @@ pub enum Ev {
     /// Doubling experiment on a parser: a valid structure of n and of 4n attributes is
     /// deserialized; the thread CPU time must grow about linearly (C14: time proportional to input).
     ScaleProbe { n: usize },
+    /// `n` add/delete cycles of a scratch attribute directly on the structure: pushes the
+    /// attribute-id counter past encoding boundaries (127, 16383, 65535).
+    ChurnIds { dim: String, n: usize },
+    /// `n` user keys issued in a row for the same policy (many registered identifiers).
+    KeygenBurst { user: usize, pol: PolArg, n: usize },
+    /// C11, "ML-KEM material bound into the secret": the user's key with the ML-KEM
+    /// decapsulation key of the secret that opens `slot` replaced by another one must no
+    /// longer open a hybridized encapsulation.
+    PqBinding { user: usize, slot: usize },
     /// `n` encapsulations made from another OS thread on the encryptor's instance (C16: freshness
     /// across threads, without any race: the threads run one after the other).
     EncryptOtherThread { enc: usize, pol: PolArg, n: u32 },
@@ -247,6 +256,9 @@ impl Ev {
             Ev::SweepUsk { .. } => "SweepUsk",
             Ev::SweepHostile { .. } => "SweepHostile",
             Ev::ScaleProbe { .. } => "ScaleProbe",
+            Ev::ChurnIds { .. } => "ChurnIds",
+            Ev::KeygenBurst { .. } => "KeygenBurst",
+            Ev::PqBinding { .. } => "PqBinding",
             Ev::EncryptOtherThread { .. } => "EncryptOtherThread",
         }
     }
